@@ -13,12 +13,13 @@ import (
 // ---- black-box quiescence detection from runtime.Stack (DESIGN §3.5) ----
 
 type gor struct {
+	id     int      // goroutine number
 	state  string   // wait reason without the duration suffix
 	frames []string // function names, innermost first
 	where  []string // "file:line" of each frame
 }
 
-var gorHdr = regexp.MustCompile(`^goroutine \d+ \[([^\],]+)(?:, [^\]]*)?\]:$`)
+var gorHdr = regexp.MustCompile(`^goroutine (\d+) \[([^\],]+)(?:, [^\]]*)?\]:$`)
 
 func snapshot() []gor {
 	buf := make([]byte, 1<<20)
@@ -34,7 +35,9 @@ func snapshot() []gor {
 	var cur *gor
 	for _, l := range strings.Split(string(buf), "\n") {
 		if m := gorHdr.FindStringSubmatch(l); m != nil {
-			out = append(out, gor{state: m[1]})
+			gid := 0
+			fmt.Sscanf(m[1], "%d", &gid)
+			out = append(out, gor{id: gid, state: m[2]})
 			cur = &out[len(out)-1]
 			continue
 		}
